@@ -206,5 +206,7 @@ pub fn spec_c05() -> PropSpec {
         tape_len: 500,
         make: || vec![Box::new(super::c06::Aux(Box::new(ValueOracle::new()))), Box::new(super::c06::Aux(Box::new(super::c03::Justify::new()))), Box::new(LruModel::new())],
         nt_rule: "",
+        engine: "seq",
+        runner: None,
     }
 }
